@@ -8,7 +8,7 @@ CONSTANTS
   DtSet = {0, 1, 2, 3}
   AskSet = {1, 2, 3, 4}
   MinSet = {1, 2, 3}
-  ShapeSet = {"exact", "missing", "extra", "wrongId"}
+  ShapeSet = {"exact", "missing", "extra", "wrongId", "perm", "dup", "dupAdj"}
   Depth = 24
   NVal = 3
 SPECIFICATION GSpec
